@@ -109,5 +109,28 @@ Example C15_ex_concrete :
   /\ shorthand_to_stim (lit "U3(0.3,  0.24 ,.5) 7") = lit "I[U3(theta=0.3*pi, phi=0.24*pi, lambda=.5*pi)] 7"
   /\ stim_to_shorthand (lit "S_DAG[T] 0 1") = lit "T_DAG 0 1".
 Proof. vm_compute. repeat split. Qed.
+(* the tag grammar is tight: near misses of a rotation tag (among them the scientific notation that float
+   formatting produces, see C16) are NOT parametric tags *)
+Example C15_ex_tag_grammar_is_tight :
+  forallb (fun t => match parse_parametric_tag (lit t) with PNone => true | _ => false end)
+    ["R_Z(theta=0.5*pix)"; "R_Z(theta=0.5*p)"; "R_Z(theta=0.5 *pi)"; " R_Z(theta=0.5*pi)"; "R_Z(theta=0.5*pi) ";
+     "R_Z(theta=0.5*pi)x"; "R_Z theta=0.5*pi)"; "R_Z(theta=0.5*pi"; "R_Z(theta0.5*pi)"; "R_Z(theta=*pi)";
+     "R_Z(theta=0.5pi)"; "R_Z(theta=1e-5*pi)"; "R_Z(theta=-1e-05*pi)"; "R_Z(theta=0,5*pi)"; "R-Z(theta=0.5*pi)";
+     "(theta=0.5*pi)"; "R_Z(theta=0.5*pi)(x)"; "R_Z(x theta=0.5*pi)"; "R_Z(theta=0.5*pi x)"; "R_Z(theta=+-1*pi)"]%string
+  = true.
+Proof. vm_compute. reflexivity. Qed.
+(* what each look-around / word boundary of the patterns is there for: keywords inside longer words, next to a
+   bracket or glued to a word are NOT rewritten *)
+Example C15_ex_boundaries :
+  forallb (fun t => str_eqb (shorthand_to_stim (lit t)) (lit t))
+    ["XT 0"; "T_DAGG 0"; "_T 0"; "T_ 0"; "T9 0"; "aT_DAG 0"; "X[T] 0"; "I[T] 0"; "T[x] 0"; "T_DAG[x] 0"; "DETECTOR rec[-1]";
+     "SQRT_X 0"; "TICK"; "aR_Z(0.5) 0"; "R_Q(0.5) 0"; "R_Z(0.5 ) 0"; "R_Z( 0.5) 0"; "R_Z() 0"; "R_Z(1e-3) 0"; "R_Z(--1) 0";
+     "aU3(1,2,3) 0"; "U3(1,2) 0"; "U3( 1,2,3) 0"; "U3(1,2,3 ) 0"; "U3(1;2;3) 0"]%string = true
+  /\ forallb (fun t => str_eqb (stim_to_shorthand (lit t)) (lit t))
+    ["XS[T] 0"; "S[T]a 0"; "S[T]_ 0"; "9S_DAG[T] 0"; "S_DAG[T]9"; "S[X] 0"; "S_DAG[TT] 0"; "MI[R_X(theta=1*pi)] 0";
+     "I[R_Q(theta=1*pi)] 0"; "I[R_X(theta=1e-3*pi)] 0"; "I[R_X(theta=1*pi) ] 0"; "I[R_X(phi=1*pi)] 0";
+     "I[U3(theta=1*pi,phi=2*pi, lambda=3*pi)] 0"; "I[U3(theta=1*pi, phi=2*pi)] 0"; "xI[U3(theta=1*pi, phi=2*pi, lambda=3*pi)] 0"]%string
+    = true.
+Proof. vm_compute. split; reflexivity. Qed.
 Example C15_ex_printed_other : printed_line (lit "DETECTOR(1, 2.5) rec[-1] rec[-2]") /\ printed_line (lit "X[I[T] 0").
 Proof. split; apply PL_other; vm_compute; reflexivity. Qed.
